@@ -24,6 +24,27 @@ def parkedOn : Pc → Option Mx
   | .r77w _ _ | .p86w _ _ _ => some .cL
   | _ => none
 
+@[simp] theorem wantsLock_rfExit (th : Th) (n : Nat) (e : Err) : wantsLock (rfExit th n e).pc = none :=
+  (obs_helpers (fun pc => wantsLock pc) none (rfl) (rfl) (fun _ => rfl) (fun _ _ => rfl) { k := 0, src := fun _ => 0 } th).1 n e
+@[simp] theorem wantsLock_wfsErr (th : Th) (e : Err) : wantsLock (wfsErr th e).pc = none :=
+  (obs_helpers (fun pc => wantsLock pc) none (rfl) (rfl) (fun _ => rfl) (fun _ _ => rfl) { k := 0, src := fun _ => 0 } th).2.1 e
+@[simp] theorem wantsLock_enterWfs (cfg : Cfg) (th : Th) (n : Nat) : wantsLock (enterWfs cfg th n).pc = none :=
+  (obs_helpers (fun pc => wantsLock pc) none (rfl) (rfl) (fun _ => rfl) (fun _ _ => rfl) cfg th).2.2.1 n
+@[simp] theorem wantsLock_wcRet (th : Th) (n : Nat) : wantsLock (wcRet th n).pc = none :=
+  (obs_helpers (fun pc => wantsLock pc) none (rfl) (rfl) (fun _ => rfl) (fun _ _ => rfl) { k := 0, src := fun _ => 0 } th).2.2.2.1 n
+@[simp] theorem wantsLock_closeRet (th : Th) : wantsLock (closeRet th).pc = none :=
+  (obs_helpers (fun pc => wantsLock pc) none (rfl) (rfl) (fun _ => rfl) (fun _ _ => rfl) { k := 0, src := fun _ => 0 } th).2.2.2.2
+@[simp] theorem parkedOn_rfExit (th : Th) (n : Nat) (e : Err) : parkedOn (rfExit th n e).pc = none :=
+  (obs_helpers (fun pc => parkedOn pc) none (rfl) (rfl) (fun _ => rfl) (fun _ _ => rfl) { k := 0, src := fun _ => 0 } th).1 n e
+@[simp] theorem parkedOn_wfsErr (th : Th) (e : Err) : parkedOn (wfsErr th e).pc = none :=
+  (obs_helpers (fun pc => parkedOn pc) none (rfl) (rfl) (fun _ => rfl) (fun _ _ => rfl) { k := 0, src := fun _ => 0 } th).2.1 e
+@[simp] theorem parkedOn_enterWfs (cfg : Cfg) (th : Th) (n : Nat) : parkedOn (enterWfs cfg th n).pc = none :=
+  (obs_helpers (fun pc => parkedOn pc) none (rfl) (rfl) (fun _ => rfl) (fun _ _ => rfl) cfg th).2.2.1 n
+@[simp] theorem parkedOn_wcRet (th : Th) (n : Nat) : parkedOn (wcRet th n).pc = none :=
+  (obs_helpers (fun pc => parkedOn pc) none (rfl) (rfl) (fun _ => rfl) (fun _ _ => rfl) { k := 0, src := fun _ => 0 } th).2.2.2.1 n
+@[simp] theorem parkedOn_closeRet (th : Th) : parkedOn (closeRet th).pc = none :=
+  (obs_helpers (fun pc => parkedOn pc) none (rfl) (rfl) (fun _ => rfl) (fun _ _ => rfl) { k := 0, src := fun _ => 0 } th).2.2.2.2
+
 /-- a thread can take a step unless the process crashed, its program is finished, the mutex it
 wants is held, or it is parked and not woken / its mutex is held -/
 theorem tstep_none (cfg : Cfg) (sh : Sh) (me : Tid) (th : Th) (hs : tstep cfg sh me th = none) :
@@ -203,15 +224,44 @@ def csRank : Pc → Nat
   | .s35 _ _ | .s36 _ _ | .s38 _ _ _ | .r76 _ _ | .r77 _ _ | .r79 _ | .p85 _ _ _ | .p86 _ _ _ | .p88 _ _ _ _ => 1
   | _ => 0
 
+@[simp] theorem csRank_rfExit (th : Th) (n : Nat) (e : Err) : csRank (rfExit th n e).pc = 0 :=
+  (obs_helpers (fun pc => csRank pc) 0 (rfl) (rfl) (fun _ => rfl) (fun _ _ => rfl) { k := 0, src := fun _ => 0 } th).1 n e
+@[simp] theorem csRank_wfsErr (th : Th) (e : Err) : csRank (wfsErr th e).pc = 0 :=
+  (obs_helpers (fun pc => csRank pc) 0 (rfl) (rfl) (fun _ => rfl) (fun _ _ => rfl) { k := 0, src := fun _ => 0 } th).2.1 e
+@[simp] theorem csRank_enterWfs (cfg : Cfg) (th : Th) (n : Nat) : csRank (enterWfs cfg th n).pc = 0 :=
+  (obs_helpers (fun pc => csRank pc) 0 (rfl) (rfl) (fun _ => rfl) (fun _ _ => rfl) cfg th).2.2.1 n
+@[simp] theorem csRank_wcRet (th : Th) (n : Nat) : csRank (wcRet th n).pc = 0 :=
+  (obs_helpers (fun pc => csRank pc) 0 (rfl) (rfl) (fun _ => rfl) (fun _ _ => rfl) { k := 0, src := fun _ => 0 } th).2.2.2.1 n
+@[simp] theorem csRank_closeRet (th : Th) : csRank (closeRet th).pc = 0 :=
+  (obs_helpers (fun pc => csRank pc) 0 (rfl) (rfl) (fun _ => rfl) (fun _ _ => rfl) { k := 0, src := fun _ => 0 } th).2.2.2.2
+
 theorem holds_idle (m : Mx) : holds .idle m = false := by cases m <;> rfl
 
-/-- every own step of `Close` is one of its seven statements in order, and the last one returns -/
+/-- every own step of `Close` is one of its seven statements in order, and the last one returns:
+`ok` to the caller of `Close`; when it was the deferred `Close` of `ReadFrom` (frame `rfret n e`),
+`ReadFrom` returns `(n, e)` -/
 theorem close_rank_step (cfg : Cfg) (sh sh' : Sh) (me : Tid) (th th' : Th)
     (hc : 0 < closeRank th.pc) (hs : tstep cfg sh me th = some (sh', th')) :
-    closeRank th'.pc + 1 = closeRank th.pc ∧ (closeRank th'.pc = 0 → th'.pc = .idle ∧ ∃ r, th'.res = some r ∧ r.err = .ok) := by
+    closeRank th'.pc + 1 = closeRank th.pc ∧
+    (closeRank th'.pc = 0 → th'.pc = .idle ∧ ∃ r, th'.res = some r ∧
+      ((∀ n e, th.cur ≠ some (.rfret n e)) → r.err = .ok) ∧ (∀ n e, th.cur = some (.rfret n e) → r.n = n ∧ r.err = e)) := by
   have hcr := tstep_crash _ _ _ _ _ hs
   obtain ⟨pc, prog, cur, slice, filled, view, pending, res⟩ := th
   cases pc <;> simp only [closeRank, Nat.lt_irrefl] at hc
+  case x16 =>
+    tstep_norm
+    obtain ⟨rfl, rfl⟩ := hs
+    refine ⟨by rw [closeRet_pc]; rfl, fun _ => ⟨closeRet_pc _, ?_⟩⟩
+    unfold closeRet
+    split
+    · rename_i n e hcur
+      refine ⟨_, rfl, fun h => absurd hcur (h n e), fun n' e' h => ?_⟩
+      have hcur' : cur = some (Call.rfret n e) := hcur
+      rw [hcur'] at h
+      cases h
+      exact ⟨rfl, rfl⟩
+    · rename_i hne
+      exact ⟨_, rfl, fun _ => rfl, fun n e h => absurd h (hne n e)⟩
   all_goals tstep_norm
   all_goals tstep_elim
   all_goals simp [closeRank, Th.goto, Th.ret]
@@ -241,7 +291,10 @@ theorem cs_rank_step (cfg : Cfg) (sh sh' : Sh) (me : Tid) (th th' : Th) (m : Mx)
   all_goals tstep_elim
   all_goals (first
     | (intro h; rw [holds_wfsOk] at h; cases h)
-    | simp [holds, csRank, Th.goto, Th.ret, wfsErr])
+    | (intro h; rw [holds_wfsErr] at h; cases h)
+    | (intro h; rw [holds_wcRet] at h; cases h)
+    | (intro h; rw [holds_closeRet] at h; cases h)
+    | simp [holds, csRank, Th.goto, Th.ret])
 
 /-! ### once `done` is set -/
 
@@ -273,14 +326,27 @@ theorem done_stable (cfg : Cfg) (sh sh' : Sh) (me : Tid) (th th' : Th) (hd : sh.
 
 /-- is this the program counter of a wait-loop test / entry check that looks at `done` -/
 def doneTest : Pc → Bool
-  | .s30 _ | .w40 _ | .s34 _ _ | .r75 _ _ | .p84 _ _ _ => true
+  | .s30 _ | .w40 _ | .s34 _ _ | .r75 _ _ | .p84 _ _ _ | .g110 _ _ => true
   | _ => false
 
+/-- `waitForWriteSpace` fails: the caller of the ring gets the error, or — inside `ReadFrom` —
+`ReadFrom`'s deferred `Close` begins, after which `ReadFrom` returns that error -/
+theorem wfsErr_cases (th : Th) (e : Err) :
+    ((wfsErr th e).pc = .idle ∧ ∃ r, (wfsErr th e).res = some r ∧ r.err = e) ∨
+    ((wfsErr th e).pc = .x10 ∧ ∃ n, (wfsErr th e).cur = some (.rfret n e)) := by
+  unfold wfsErr
+  split
+  · exact Or.inr ⟨rfl, _, rfl⟩
+  · exact Or.inr ⟨rfl, _, rfl⟩
+  · exact Or.inl ⟨rfl, _, rfl, rfl⟩
+
 /-- with `done` set, every test of `done` takes the end-of-stream exit: the entry checks return
-`eof` at once, the wait loops go to their unlock-and-return statement instead of `Wait` -/
+`eof` at once (inside `ReadFrom`: its deferred `Close` begins, then it returns `eof`), the wait
+loops go to their unlock-and-return statement instead of `Wait` -/
 theorem done_exits (cfg : Cfg) (sh sh' : Sh) (me : Tid) (th th' : Th) (hd : sh.done = true)
     (ht : doneTest th.pc = true) (hs : tstep cfg sh me th = some (sh', th')) :
     (th'.pc = .idle ∧ ∃ r, th'.res = some r ∧ r.err = .eof) ∨
+    (th'.pc = .x10 ∧ ∃ n, th'.cur = some (.rfret n .eof)) ∨
     (∃ n p, th'.pc = .s35 n p) ∨ (∃ n c, th'.pc = .r76 n c) ∨ (∃ w n c, th'.pc = .p85 w n c) := by
   have hcr := tstep_crash _ _ _ _ _ hs
   obtain ⟨pc, prog, cur, slice, filled, view, pending, res⟩ := th
@@ -288,19 +354,29 @@ theorem done_exits (cfg : Cfg) (sh sh' : Sh) (me : Tid) (th th' : Th) (hd : sh.d
   all_goals tstep_norm
   all_goals (simp only [hd, not_true_eq_false, false_and, or_false, true_and] at hs)
   all_goals tstep_elim
-  all_goals simp [Th.goto, Th.ret, wfsErr]
+  case s30 n =>
+    rcases wfsErr_cases ⟨Pc.s30 n, prog, cur, slice, filled, view, pending, none⟩ .eof with h | h
+    · exact Or.inl h
+    · exact Or.inr (Or.inl h)
+  case g110 tot ms => exact Or.inr (Or.inl ⟨rfl, _, rfl⟩)
+  all_goals simp [Th.goto, Th.ret]
 
-/-- …and those unlock-and-return statements return `eof` with the mutex released -/
+/-- …and those unlock-and-return statements return `eof` with the mutex released (inside
+`ReadFrom`: its deferred `Close` begins, with the mutex released) -/
 theorem eof_exit_returns (cfg : Cfg) (sh sh' : Sh) (me : Tid) (th th' : Th)
     (ht : (∃ n p, th.pc = .s35 n p) ∨ (∃ n c, th.pc = .r76 n c) ∨ (∃ w n c, th.pc = .p85 w n c))
     (hs : tstep cfg sh me th = some (sh', th')) :
-    th'.pc = .idle ∧ (∃ r, th'.res = some r ∧ r.err = .eof) ∧ ∀ m, holds th'.pc m = false := by
+    ((th'.pc = .idle ∧ ∃ r, th'.res = some r ∧ r.err = .eof) ∨
+     (th'.pc = .x10 ∧ ∃ n, th'.cur = some (.rfret n .eof))) ∧ ∀ m, holds th'.pc m = false := by
   have hcr := tstep_crash _ _ _ _ _ hs
   obtain ⟨pc, prog, cur, slice, filled, view, pending, res⟩ := th
   rcases ht with ⟨n, p, rfl⟩ | ⟨n, c, rfl⟩ | ⟨w, n, c, rfl⟩
+  · tstep_norm
+    obtain ⟨rfl, rfl⟩ := hs
+    exact ⟨wfsErr_cases _ _, fun m => holds_wfsErr _ _ m⟩
   all_goals tstep_norm
   all_goals tstep_elim
-  all_goals (refine ⟨by simp [Th.ret, wfsErr], by simp [Th.ret, wfsErr], fun m => ?_⟩; cases m <;> simp [Th.ret, wfsErr, holds])
+  all_goals (refine ⟨Or.inl ⟨by simp [Th.ret], by simp [Th.ret]⟩, fun m => ?_⟩; cases m <;> simp [Th.ret, holds])
 
 
 /-! ### the liveness invariant of the whole system -/
